@@ -20,6 +20,7 @@ def inrange(i, n):
 
 def register(ix):
     register_get_bin_on_index(ix)
+    register_init_bins(ix)
 
 
 # ---------------------------------------------------------------------------------------------- get_bin_on_index
@@ -71,3 +72,38 @@ def register_get_bin_on_index(ix):
             gboi("(i, j), 2-d bins of elements", "Tuple[Int,Int]", "Lst[Lst[Obj]]", "Obj", ["index[0]", "index[1]"], 2),
         ],
         notes="executed in place at call sites (the result may be a row OF the caller's bins: aliasing is kept)"))
+
+
+# ---------------------------------------------------------------------------------------------- init_bins
+def register_init_bins(ix):
+    """docstring: `Initialize cells of the form edges with the given value.  Return bins filled with copies of value.
+    ... If the value is mutable, use deepcopy = True (or the content of cells will be identical).`
+    C11: `deep copy of the analysis per cell at construction`."""
+    ALL1 = "all(result[i] == value for i in range(len(result)))"
+    ALL2 = "all(all(result[i][j] == value for j in range(len(result[i]))) for i in range(len(result)))"
+    ix.add(Contract(
+        HF, "init_bins", props=["C11", "C12", "C06"],
+        cases=[
+            # (concrete-length edge lists first: case selection goes by argument fit)
+            Contract(HF, "init_bins", name="init_bins[2-d edges, number]",
+                     params={"edges": "PyList[2,Lst[Real]]", "value": "Real", "deepcopy": "Bool"}, result="Lst[Lst[Real]]",
+                     defaults={"value": 0, "deepcopy": False},
+                     requires=["len(edges[0]) >= 1", "len(edges[1]) >= 1"],
+                     local_types={"bins": "Lst[Lst[Real]]"},
+                     loops={1: LoopSpec(invariant=[
+                         "len(bins) == _i",
+                         "all(len(bins[i]) == len(edges[1]) - 1 for i in range(len(bins)))",
+                         "all(all(bins[i][j] == value for j in range(len(bins[i]))) for i in range(len(bins)))"])},
+                     ensures=["len(result) == len(edges[0]) - 1",
+                              "all(len(result[i]) == len(edges[1]) - 1 for i in range(len(result)))", ALL2]),
+            Contract(HF, "init_bins", name="init_bins[[x-edges], number]",
+                     params={"edges": "PyList[1,Lst[Real]]", "value": "Real", "deepcopy": "Bool"}, result="Lst[Real]",
+                     defaults={"value": 0, "deepcopy": False},
+                     requires=["len(edges[0]) >= 1"],
+                     ensures=["len(result) == len(edges[0]) - 1", ALL1]),
+            Contract(HF, "init_bins", name="init_bins[1-d edges, number]",
+                     params={"edges": "Lst[Real]", "value": "Real", "deepcopy": "Bool"}, result="Lst[Real]",
+                     defaults={"value": 0, "deepcopy": False},
+                     requires=["len(edges) >= 1"],
+                     ensures=["len(result) == len(edges) - 1", ALL1]),
+        ]))
